@@ -158,7 +158,67 @@ func gridSynth(gc int, cellsPerRow []int) (*document.Document, *document.Table) 
 	return gridOpenBytes(nb)
 }
 
-func gridStart(k string) (*document.Document, *document.Table) {
+// gridDeepCopy clones a value structurally (pointers, slices with their capacity, structs),
+// so that every behaviour starts from its own private instance of a start table that was
+// built once through the real API / Open.
+func gridDeepCopy(v reflect.Value) reflect.Value {
+	switch v.Kind() {
+	case reflect.Ptr:
+		if v.IsNil() {
+			return v
+		}
+		n := reflect.New(v.Type().Elem())
+		n.Elem().Set(gridDeepCopy(v.Elem()))
+		return n
+	case reflect.Struct:
+		n := reflect.New(v.Type()).Elem()
+		for i := 0; i < v.NumField(); i++ {
+			if !n.Field(i).CanSet() {
+				if !v.Field(i).IsZero() {
+					panic("gridDeepCopy: unexported field " + v.Type().Name() + "." + v.Type().Field(i).Name)
+				}
+				continue
+			}
+			n.Field(i).Set(gridDeepCopy(v.Field(i)))
+		}
+		return n
+	case reflect.Slice:
+		if v.IsNil() {
+			return v
+		}
+		n := reflect.MakeSlice(v.Type(), v.Len(), v.Cap())
+		for i := 0; i < v.Len(); i++ {
+			n.Index(i).Set(gridDeepCopy(v.Index(i)))
+		}
+		return n
+	case reflect.Interface:
+		if v.IsNil() {
+			return v
+		}
+		n := reflect.New(v.Type()).Elem()
+		n.Set(gridDeepCopy(v.Elem()))
+		return n
+	case reflect.Map:
+		if !v.IsNil() {
+			panic("gridDeepCopy: map")
+		}
+		return v
+	}
+	return v
+}
+
+var gridStartCache = map[string]*document.Table{}
+
+func gridStart(k string) *document.Table {
+	tpl, ok := gridStartCache[k]
+	if !ok {
+		_, tpl = gridBuildStart(k)
+		gridStartCache[k] = tpl
+	}
+	return gridDeepCopy(reflect.ValueOf(tpl)).Interface().(*document.Table)
+}
+
+func gridBuildStart(k string) (*document.Document, *document.Table) {
 	switch k {
 	case "1x1":
 		return gridFresh(1, 1)
@@ -513,8 +573,6 @@ func gridExec(t *document.Table, op Op, i int) string {
 func runGrid(c Case, emit Emitter) {
 	document.VerifResetGlobals()
 	var t *document.Table
-	var doc *document.Document
-	_ = doc
 	resetDone := false
 	for i, op := range c.Steps {
 		var before map[string]interface{}
@@ -529,7 +587,7 @@ func runGrid(c Case, emit Emitter) {
 		switch {
 		case op.Name() == "Start":
 			ret, pmsg = guard(func() string {
-				doc, t = gridStart(op.Str("k"))
+				t = gridStart(op.Str("k"))
 				return "ok"
 			})
 			if ret == "panic" {
@@ -552,7 +610,14 @@ func runGrid(c Case, emit Emitter) {
 		} else {
 			after = gridProject(t)
 		}
-		body := Ev{"op": op, "ret": ret, "b": before, "a": after, "rd": rd, "cp": cp}
+		// rd / cp are only read by the judge on ReadAll / CopyTable steps
+		body := Ev{"op": op, "ret": ret, "b": before, "a": after}
+		if op.Name() == "ReadAll" {
+			body["rd"] = rd
+		}
+		if op.Name() == "CopyTable" {
+			body["cp"] = cp
+		}
 		js, err := json.Marshal(body)
 		if err != nil {
 			panic(err)
@@ -569,7 +634,9 @@ func runGrid(c Case, emit Emitter) {
 		body["ev"] = "step"
 		body["case"] = c.ID
 		body["i"] = i
-		body["pmsg"] = pmsg
+		if pmsg != "" {
+			body["pmsg"] = pmsg
+		}
 		emit(body)
 	}
 }
